@@ -12,6 +12,9 @@ KNOWN_OPERANDS = {('CBZ_T1', 'imm32'): ('cbz-scale', lambda want, got: got == 2 
                   ('PUSH_T2', 'unaligned_allowed'): ('push-t2-unaligned', lambda want, got: want == 0 and got == 1)}
 SKIP_KEYS = {'op', 'size', 'signed', 'kind', 'pfx', 'sub', 'double', 'unsigned', 'load', 'to_thumb', 'unpriv'}
 NSTATES = 3
+IT_LAST = [x for x in gen.IT_STATES if x and (x & 0xF) == 0x8]
+IT_NOT_LAST = [x for x in gen.IT_STATES if x and (x & 0xF) != 0x8]
+assert IT_LAST and IT_NOT_LAST
 
 
 def norm(v):
@@ -31,7 +34,12 @@ def compare(acc, spec, cpu, w, row, rng, full):
     for si in range(NSTATES):
         # processor state the decode may legitimately depend on: APSR.C, IT position (Thumb); everything else random
         flags = rng.getrandbits(4)
-        it = rng.choice(gen.IT_STATES) if (spec.thumb and rng.random() < 0.5) else 0
+        # Thumb: the three IT positions decode may depend on, one each per word: outside a block, inside and not last, last
+        it = 0
+        if spec.thumb and si == 1:
+            it = rng.choice(IT_NOT_LAST)
+        elif spec.thumb and si == 2:
+            it = rng.choice(IT_LAST)
         cpsr = gen.cpsr_value(nzcvq=flags << 1 | rng.getrandbits(1), ge=rng.getrandbits(4), it=it, t=1 if spec.thumb else 0,
                               m=rng.choice((0b10000, 0b10011, 0b11111, 0b10010)))
         cpu.registers.cpsr.value = cpsr
